@@ -494,6 +494,7 @@ pub fn scratch_dir() -> String {
 
 extern "C" {
     fn prctl(option: i32, arg2: u64, arg3: u64, arg4: u64, arg5: u64) -> i32;
+    fn setrlimit(resource: i32, rlim: *const [u64; 2]) -> i32;
 }
 
 pub fn worker_main(check: &mut dyn Check, ctx: &Ctx, trace: bool) {
@@ -501,6 +502,15 @@ pub fn worker_main(check: &mut dyn Check, ctx: &Ctx, trace: bool) {
     // must not outlive a supervisor that was killed
     unsafe {
         prctl(1, 9, 0, 0, 0);
+    }
+    // a generated program may spell out exponential growth (`s = s + s` in a loop): let the allocation fail inside
+    // this worker (abort: "memory allocation of … failed") long before the machine runs out of memory. Not under the
+    // sanitizer builds, which reserve terabytes of address space for their shadow memory.
+    if matches!(ctx.flavour, Flavour::Rel | Flavour::Dbg) {
+        let lim: [u64; 2] = [12 << 30, 12 << 30];
+        unsafe {
+            setrlimit(9 /* RLIMIT_AS */, &lim);
+        }
     }
     crate::obs::install_panic_hook();
     let stdin = std::io::stdin();
@@ -845,6 +855,10 @@ fn examine_chunk(
                 let mut m = merged.lock().unwrap();
                 m.cur_idx = idx;
                 m.violation(&sig, format!("worker died ({}) while running this case in a batch; alone it completes. stderr: {}", how, tail), &input);
+            } else {
+                let mut m = merged.lock().unwrap();
+                m.count(&format!("cases-not-judged:{}", what));
+                m.sample(&format!("[not judged: {} in a batch] {}", what, crate::obs::clip(&input, 300)));
             }
         } else {
             let (how2, tail2) = w2.reap(true);
@@ -855,6 +869,10 @@ fn examine_chunk(
                 let mut m = merged.lock().unwrap();
                 m.cur_idx = idx;
                 m.violation(&sig, format!("worker {} ({}). stderr: {}", if hang2 { "did not answer" } else { "died" }, how2, tail2), &input);
+            } else {
+                let mut m = merged.lock().unwrap();
+                m.count(&format!("cases-not-judged:{}", what));
+                m.sample(&format!("[not judged: {}] {}", what, crate::obs::clip(&input, 300)));
             }
         }
         from = idx + 1;
